@@ -48,6 +48,18 @@ func canonChan(v ssa.Value, depth int) ssa.Value {
 	return v
 }
 
+// canonActual resolves an actual argument of a go statement: a closure binding is the cell of the
+// captured variable, whose (unique) stored value is the channel itself.
+func canonActual(v ssa.Value) ssa.Value {
+	if al, ok := v.(*ssa.Alloc); ok {
+		if st := uniqueStoreTo(al); st != nil {
+			return canonChan(st, 0)
+		}
+		return v
+	}
+	return canonChan(v, 0)
+}
+
 // addrKey identifies an address expression structurally: Alloc, or FieldAddr(base, i).
 func addrKey(a ssa.Value) string { return addrKeyD(a, 0) }
 
@@ -347,7 +359,7 @@ func reachesReturnAvoiding(from ssa.Instruction, stop map[ssa.Instruction]bool) 
 // chanJoinOrder checks J1 (join order) and J4 (exit exists / is requested) for every
 // function of the given packages that launches goroutines.
 func chanJoinOrder(r *core.Run, prog *core.Program, prop string, rels []string) {
-	nLaunchers, nLaunches, nPairs := 0, 0, 0
+	nLaunchers, nLaunches, nPairs, nNested, nUnblock := 0, 0, 0, 0, 0
 	for _, rel := range rels {
 		sp := prog.SSAPkg(rel)
 		if sp == nil {
@@ -403,9 +415,15 @@ func chanJoinOrder(r *core.Run, prog *core.Program, prop string, rels []string) 
 					if di >= len(act) {
 						continue
 					}
-					done := canonChan(act[di], 0)
+					done := canonActual(act[di])
 					joins := recvsOn(fn, done)
 					jinst := fmt.Sprintf("%s/JOIN:%s->%s", prop, fkey, it.name)
+					if mk, ok := done.(*ssa.MakeChan); ok {
+						if c, ok := mk.Size.(*ssa.Const); ok && c.Int64() >= 1 && !it.s.sendLoop[di] {
+							r.OK(prop+"/JOIN", jinst, pos, "the goroutine's single send goes to a buffered channel of the launcher: it cannot block on it")
+							continue
+						}
+					}
 					if len(joins) == 0 {
 						r.Violation(prop+"/JOIN", jinst, pos, fmt.Sprintf("%s signals completion on a channel that %s never receives from: the goroutine blocks forever on its final send", it.name, fkey))
 						continue
@@ -422,6 +440,167 @@ func chanJoinOrder(r *core.Run, prog *core.Program, prop string, rels []string) 
 					}
 				}
 			}
+			// UNBLOCK: a goroutine that waits on a channel only its launcher can release
+			for _, it := range items {
+				act := it.l.actuals[it.c]
+				isMain := fn.Name() == "main" && fn.Pkg != nil && fn.Pkg.Pkg.Name() == "main"
+				for ri := range it.s.recvAny {
+					if ri >= len(act) {
+						continue
+					}
+					x := canonActual(act[ri])
+					mk, ok := x.(*ssa.MakeChan)
+					if !ok || mk.Parent() != fn {
+						continue
+					}
+					// someone else may release it: another launched goroutine sends on it, or it escapes
+					other := false
+					for _, o := range items {
+						acto := o.l.actuals[o.c]
+						for si := range unionKeys(o.s.sendLoop, o.s.sendAfter) {
+							if si < len(acto) && canonActual(acto[si]) == x {
+								other = true
+							}
+						}
+					}
+					if other || chanEscapes(fn, x) {
+						continue
+					}
+					nUnblock++
+					inst := fmt.Sprintf("%s/UNBLOCK:%s->%s:%s", prop, fkey, it.name, inputName(it.s, ri))
+					pos := prog.Pos(it.l.g.Pos())
+					stop := map[ssa.Instruction]bool{}
+					deferredBefore := false
+					for _, b := range fn.Blocks {
+						for _, ins := range b.Instrs {
+							switch y := ins.(type) {
+							case *ssa.Send:
+								if canonChan(y.Chan, 0) == x {
+									stop[ins] = true
+								}
+							case *ssa.Select:
+								for _, st := range y.States {
+									if st.Dir == types.SendOnly && canonChan(st.Chan, 0) == x {
+										stop[ins] = true
+									}
+								}
+							case *ssa.Call:
+								if bi, ok := y.Call.Value.(*ssa.Builtin); ok && bi.Name() == "close" && len(y.Call.Args) == 1 && canonChan(y.Call.Args[0], 0) == x {
+									stop[ins] = true
+								}
+							case *ssa.Defer:
+								if bi, ok := y.Call.Value.(*ssa.Builtin); ok && bi.Name() == "close" && len(y.Call.Args) == 1 && canonChan(y.Call.Args[0], 0) == x {
+									stop[ins] = true
+									if instrDominates(ins, it.l.g) {
+										deferredBefore = true
+									}
+								}
+							}
+						}
+					}
+					// a release inside a loop stands for the whole loop (how many times it runs is the
+					// EXITTOKENS rule's business): entering the loop counts as releasing
+					for ins := range stop {
+						b := ins.Block()
+						if !blockInCycle(b) {
+							continue
+						}
+						for _, o := range fn.Blocks {
+							if o != b && blockReaches(b, o) && blockReaches(o, b) && len(o.Instrs) > 0 {
+								stop[o.Instrs[0]] = true
+							}
+						}
+					}
+					switch {
+					case deferredBefore:
+						r.OK(prop+"/UNBLOCK", inst, pos, "the launcher defers the close of the channel the goroutine waits on")
+					case isMain:
+						r.OK(prop+"/UNBLOCK", inst, pos, "launched by main: the process ends with it")
+					case len(stop) == 0:
+						r.Violation(prop+"/UNBLOCK", inst, pos, fmt.Sprintf("%s waits on a channel created by %s that nothing ever sends on or closes: the goroutine outlives the call", it.name, fkey))
+					case reachesReturnAvoiding(it.l.g, stop):
+						r.Violation(prop+"/UNBLOCK", inst, pos, fmt.Sprintf("%s waits on a channel that only %s can release (send or close), and %s can return on some path without doing so: on that path the goroutine outlives the call, one more for every such call", it.name, fkey, fkey))
+					default:
+						r.OK(prop+"/UNBLOCK", inst, pos, "every returning path of the launcher releases the channel the goroutine waits on")
+					}
+				}
+			}
+			// J1n: a goroutine A' launched by a launched goroutine A, sending on a channel that B serves,
+			// must be joined by A before A signals its own completion — otherwise "A joined" no longer
+			// implies "everything A was asked to send has been delivered" and B can be told to exit first.
+			for _, A := range items {
+				actA := A.l.actuals[A.c]
+				for _, l2 := range launchesIn(prog, A.c) {
+					for _, c2 := range l2.callees {
+						if c2.Blocks == nil {
+							continue
+						}
+						s2 := summarizeGo(c2)
+						act2 := l2.actuals[c2]
+						for si := range unionKeys(s2.sendLoop, s2.sendAfter) {
+							if si >= len(act2) {
+								continue
+							}
+							inA := canonActual(act2[si])
+							idx := -1
+							for k, in := range A.s.inputs {
+								if in == inA {
+									idx = k
+								}
+							}
+							if idx < 0 || idx >= len(actA) {
+								continue
+							}
+							ch := canonActual(actA[idx])
+							for _, B := range items {
+								if B.l.g == A.l.g {
+									continue
+								}
+								actB := B.l.actuals[B.c]
+								for ri := range B.s.recvLoop {
+									if ri >= len(actB) || canonActual(actB[ri]) != ch {
+										continue
+									}
+									nPairs++
+									nNested++
+									n2 := core.SSAFuncKey(c2)
+									inst := fmt.Sprintf("%s/JOINORDER:%s:%s(nested in %s)-before-%s", prop, fkey, n2, A.name, B.name)
+									pos := prog.Pos(l2.g.Pos())
+									// A's completion signals
+									var doneA []ssa.Instruction
+									for di := range A.s.sendAfter {
+										if di < len(A.s.inputs) {
+											doneA = append(doneA, sendsOn(A.c, A.s.inputs[di])...)
+										}
+									}
+									joined := len(doneA) > 0
+									for _, d := range doneA {
+										okd := false
+										for dj := range s2.sendAfter {
+											if dj >= len(act2) {
+												continue
+											}
+											for _, j := range recvsOn(A.c, canonActual(act2[dj])) {
+												if instrDominates(j, d) {
+													okd = true
+												}
+											}
+										}
+										if !okd {
+											joined = false
+										}
+									}
+									if joined {
+										r.OK(prop+"/JOINORDER", inst, pos, fmt.Sprintf("%s joins %s before signalling its own completion", A.name, n2))
+									} else {
+										r.Violation(prop+"/JOINORDER", inst, pos, fmt.Sprintf("%s, launched by %s, sends on the channel served by %s, but %s signals its completion without having joined %s: %s joins %s and then tells %s to exit while %s may still hold undelivered messages — they are lost (and %s blocks forever on a send nobody receives)", n2, A.name, B.name, A.name, n2, fkey, A.name, B.name, n2, n2))
+									}
+								}
+							}
+						}
+					}
+				}
+			}
 			// J1: A sends (in its loop or anywhere) on a channel that B serves
 			for _, A := range items {
 				for _, B := range items {
@@ -434,8 +613,8 @@ func chanJoinOrder(r *core.Run, prog *core.Program, prop string, rels []string) 
 							if si >= len(actA) || ri >= len(actB) {
 								continue
 							}
-							c := canonChan(actA[si], 0)
-							if c != canonChan(actB[ri], 0) {
+							c := canonActual(actA[si])
+							if c != canonActual(actB[ri]) {
 								continue
 							}
 							// A's done channel must not be this very channel
@@ -445,12 +624,12 @@ func chanJoinOrder(r *core.Run, prog *core.Program, prop string, rels []string) 
 							var joinA, joinB []ssa.Instruction
 							for di := range A.s.sendAfter {
 								if di < len(actA) {
-									joinA = append(joinA, recvsOn(fn, canonChan(actA[di], 0))...)
+									joinA = append(joinA, recvsOn(fn, canonActual(actA[di]))...)
 								}
 							}
 							for di := range B.s.sendAfter {
 								if di < len(actB) {
-									joinB = append(joinB, recvsOn(fn, canonChan(actB[di], 0))...)
+									joinB = append(joinB, recvsOn(fn, canonActual(actB[di]))...)
 								}
 							}
 							if len(joinB) == 0 {
@@ -489,6 +668,8 @@ func chanJoinOrder(r *core.Run, prog *core.Program, prop string, rels []string) 
 	}
 	r.Count("launcher_functions", nLaunchers)
 	r.Count("go_statements", nLaunches)
+	r.Count("nested_sender_goroutines", nNested)
+	r.Count("launcher_released_waits", nUnblock)
 	r.Count("client_server_goroutine_pairs", nPairs)
 }
 
@@ -509,6 +690,13 @@ func recvsOn(fn *ssa.Function, ch ssa.Value) []ssa.Instruction {
 		for _, ins := range b.Instrs {
 			if u, ok := ins.(*ssa.UnOp); ok && u.Op == token.ARROW && canonChan(u.X, 0) == ch {
 				out = append(out, u)
+			}
+			if sel, ok := ins.(*ssa.Select); ok {
+				for _, st := range sel.States {
+					if st.Dir == types.RecvOnly && canonChan(st.Chan, 0) == ch {
+						out = append(out, sel)
+					}
+				}
 			}
 		}
 	}
@@ -1024,4 +1212,87 @@ func exitChansOf(info *types.Info, lit *ast.FuncLit) []types.Object {
 		return true
 	})
 	return out
+}
+
+
+func inputName(s *goSummary, i int) string {
+	if i < len(s.inputs) {
+		return s.inputs[i].Name()
+	}
+	return fmt.Sprintf("in%d", i)
+}
+
+// chanEscapes: the channel value (a MakeChan of fn) is handed to something other than a channel
+// operation, a go statement or a closure of fn: a plain call, a store into a non-local structure, a return.
+func chanEscapes(fn *ssa.Function, mk ssa.Value) bool {
+	seen := map[ssa.Value]bool{}
+	var esc func(v ssa.Value) bool
+	esc = func(v ssa.Value) bool {
+		if seen[v] {
+			return false
+		}
+		seen[v] = true
+		refs := v.Referrers()
+		if refs == nil {
+			return false
+		}
+		for _, ref := range *refs {
+			switch y := ref.(type) {
+			case *ssa.Send, *ssa.Select, *ssa.Go, *ssa.DebugRef:
+			case *ssa.UnOp:
+				if y.Op == token.MUL && esc(y) {
+					return true
+				}
+			case *ssa.Store:
+				if y.Val == v {
+					// stored into a local cell: follow the loads of that cell
+					if al, ok := y.Addr.(*ssa.Alloc); ok {
+						if esc(al) {
+							return true
+						}
+						continue
+					}
+					return true
+				}
+			case *ssa.MakeClosure:
+			case *ssa.ChangeType:
+				if esc(y) {
+					return true
+				}
+			case *ssa.Call:
+				if _, ok := y.Call.Value.(*ssa.Builtin); ok {
+					continue
+				}
+				return true
+			case *ssa.Defer:
+				if _, ok := y.Call.Value.(*ssa.Builtin); ok {
+					continue
+				}
+				return true
+			case *ssa.Return, *ssa.MakeInterface, *ssa.Phi:
+				return true
+			}
+		}
+		return false
+	}
+	return esc(mk)
+}
+
+
+func blockReaches(a, b *ssa.BasicBlock) bool {
+	seen := map[*ssa.BasicBlock]bool{}
+	st := append([]*ssa.BasicBlock{}, a.Succs...)
+	for len(st) > 0 {
+		x := st[len(st)-1]
+		st = st[:len(st)-1]
+		if x == b {
+			return true
+		}
+		if seen[x] {
+			continue
+		}
+		seen[x] = true
+		st = append(st, x.Succs...)
+	}
+	return false
 }
